@@ -160,6 +160,7 @@ type ExprLexer struct {
 	scan   scanner.Scanner
 	lexErr *ExprError
 	start  scanner.Position
+	ended  bool // The end marker }} was read. What follows it is not a part of the expression
 }
 
 // NewExprLexer makes new ExprLexer instance.
@@ -174,6 +175,9 @@ func NewExprLexer(src string) *ExprLexer {
 	}
 	l.scan.Init(strings.NewReader(src))
 	l.scan.Error = func(_ *scanner.Scanner, m string) {
+		if l.ended {
+			return
+		}
 		l.error(fmt.Sprintf("scan error while lexing expression: %s", m))
 	}
 	return l
@@ -396,6 +400,9 @@ func (lex *ExprLexer) lexEnd() *Token {
 	if r != '}' {
 		return lex.unexpected(r, "end marker }}", "'}'")
 	}
+	// Eating the second '}' makes the scanner read the character after the end marker ahead. An error on the
+	// character (e.g. NUL) is not an error of the expression
+	lex.ended = true
 	lex.scan.Next()
 	// }} is an end marker of interpolation
 	return lex.token(TokenKindEnd)
